@@ -281,16 +281,21 @@ func (c *RetryClient) SetClient(ctx context.Context, cli *BaseClient) {
 		close(c.chConnSwitch)
 	}
 	c.chConnSwitch = make(chan struct{})
+	// chTask is read by pushTask and Disconnect under mu; create it under mu as well.
+	started := c.chTask != nil
+	if !started {
+		c.chTask = make(chan struct{}, 1)
+	}
+	chTask := c.chTask
 	c.mu.Unlock()
 	c.muStats.Lock()
 	c.stats.CountSetClient++
 	c.muStats.Unlock()
 
-	if c.chTask != nil {
+	if started {
 		return
 	}
 
-	c.chTask = make(chan struct{}, 1)
 	go func() {
 		connected := false
 		var connSwitch chan struct{} // chConnSwitch of the client which the loop is connected with
@@ -330,7 +335,7 @@ func (c *RetryClient) SetClient(ctx context.Context, cli *BaseClient) {
 				c.mu.Unlock()
 
 				select {
-				case _, ok := <-c.chTask:
+				case _, ok := <-chTask:
 					if !ok {
 						return
 					}
